@@ -242,6 +242,22 @@ var nestFamilies = func() []family {
 		one := run.Node{T: "array", A: []run.Node{{T: "json.Number", S: "1"}}}
 		return run.Node{T: "object", K: []string{"v", "k", "a", "one"}, A: []run.Node{numArray(3, rec), {T: "json.Number", S: "1"}, numArray(3, rec), one}}
 	}
+	dataNest := func(name, text string, kind int) family {
+		return family{"nest:data-" + name, func(n int) (string, run.Node) {
+			chain := func() run.Node {
+				d := run.Node{T: "json.Number", S: "1"}
+				for i := 0; i < n; i++ {
+					if kind == 0 || (kind == 2 && i%2 == 0) {
+						d = run.Node{T: "object", K: []string{"k"}, A: []run.Node{d}}
+					} else {
+						d = run.Node{T: "array", A: []run.Node{d}}
+					}
+				}
+				return d
+			}
+			return text, run.Node{T: "object", K: []string{"a", "b"}, A: []run.Node{chain(), chain()}}
+		}}
+	}
 	wrap := func(name, pre, post string) family {
 		return family{"nest:" + name, func(n int) (string, run.Node) {
 			return strings.Repeat(pre, n) + "@" + strings.Repeat(post, n), data()
@@ -260,6 +276,14 @@ var nestFamilies = func() []family {
 		wrap("ref-group_by", "length(group_by($.one, &to_string(", ")))"), wrap("ref-map", "map(&", ", $.one)[0]"), wrap("cond-filter", "$.one[?", "]"),
 		wrap("rhs-projection", "$.one[*].[", "][0]"), wrap("rhs-flatten", "$.one[].[", "][0]"), wrap("let-binding", "let $y = ", " in [$y, $y][0]"),
 		wrap("arg-contains", "contains($.one, ", ") || @"), wrap("arg-zip", "zip($.one, to_array(", "))[0][1]"),
+		// nesting in the data: two equal values nested n levels deep (a chain
+		// of single-member objects, of one-element arrays, or alternating),
+		// O(n) nodes each; every operation that walks them must stay polynomial
+		dataNest("eq-objects", "a == b", 0), dataNest("ne-objects", "a != b", 0), dataNest("eq-arrays", "a == b", 1), dataNest("eq-mixed", "a == b", 2),
+		dataNest("contains", "contains([a, `1`], b)", 0), dataNest("eq-in-list", "[a, a] == [b, b]", 2), dataNest("eq-in-hash", "{x: a, y: b} == {x: b, y: a}", 0),
+		dataNest("to_string", "to_string(a) == to_string(b)", 2), dataNest("merge", "merge(a, b) == a", 0), dataNest("filter-eq", "[a, b][?@ == $.a]", 2),
+		dataNest("sort_by-to_string", "sort_by([a, b], &to_string(@))[0] == b", 0), dataNest("group_by", "length(group_by([a, b, a], &to_string(@)))", 1),
+		dataNest("flatten", "a[] == b[]", 1), dataNest("values", "values(a) == values(b)", 0), dataNest("not_null-eq", "not_null(a) == not_null(b) && a == a", 2),
 	}
 }()
 
